@@ -35,7 +35,7 @@ impl Deserialize for VotingProcedures {
                 cbor_event::Len::Len(n) => total < n,
                 cbor_event::Len::Indefinite => true,
             } {
-                if is_break_tag(raw, "voting_procedure map")? {
+                if is_break_tag(raw, &len, "voting_procedure map")? {
                     break;
                 }
 
@@ -69,7 +69,7 @@ fn deserialize_internal_map<R: BufRead + Seek>(
             cbor_event::Len::Len(n) => total < n,
             cbor_event::Len::Indefinite => true,
         } {
-            if is_break_tag(raw, "gov_act_id_to_vote map")? {
+            if is_break_tag(raw, &len, "gov_act_id_to_vote map")? {
                 break;
             }
 
